@@ -102,6 +102,17 @@ def plant(d, r, kind, enc, comment=None):
     elif kind == "filter-arg":
         ln = d.add("${value | fmt(_('%s'))}" % m + nl)
         exp(ln, "_", m, "filter-arg")
+    elif kind == "filter-arg-multiline":
+        m2 = d.msg(w)
+        if r.random() < 0.5:
+            ln = d.add("${value | fmt(_('%s')," % m + nl + "    _('%s'))}" % m2 + nl)
+            exp(ln, "_", m, "filter-arg")
+            exp(ln + 1, "_", m2, "filter-arg")
+        else:
+            # the expression itself spans lines too; the filter list starts on its last line
+            ln = d.add("${ fn(1," + nl + "    2) | fmt(" + nl + "    _('%s')," % m + nl + nl + "    _('%s')) }" % m2 + nl)
+            exp(ln + 2, "_", m, "filter-arg")
+            exp(ln + 4, "_", m2, "filter-arg")
     elif kind == "control-if":
         ln = d.add("% if _('" + m + "'):" + nl + "x" + nl + "% endif" + nl)
         exp(ln, "_", m)
@@ -175,7 +186,7 @@ def decoy(d, r, kind):
         d.add("%% if _('" + t + "'):" + nl)
 
 
-PLANTS = ["expr", "expr-gettext", "expr-multiline", "expr-two", "filter-arg", "control-if", "control-elif", "control-for", "code-block", "module-block",
+PLANTS = ["expr", "expr-gettext", "expr-multiline", "expr-two", "filter-arg", "filter-arg-multiline", "control-if", "control-elif", "control-for", "code-block", "module-block",
           "def-signature", "block-args", "call-expr", "nsdef-attr", "in-def-body"]
 DECOYS = ["text", "text-tag", "doc", "comment", "escaped-percent"]
 
